@@ -308,6 +308,25 @@ def base_field(t, self_term) -> Optional[str]:
     while isinstance(t, tuple) and t:
         if t[0] == 'attr' and t[1] == self_term:
             return t[2]
+        if t[0] in ('unpack', 'unpack*') and isinstance(t[1], tuple) and t[1][:1] == ('elem',) and \
+                isinstance(t[1][1], tuple) and t[1][1][:1] == ('call',) and t[1][1][2] == ('ref', 'builtin', 'zip'):
+            args = t[1][1][3]
+            if isinstance(t[2], int) and t[2] < len(args):
+                a = args[t[2]]
+                t = a[1] if isinstance(a, tuple) and a[:1] == ('star',) else a
+                t = ('elem', t, 0)
+                continue
+            return None
+        if t[0] in ('unpack', 'unpack*') and isinstance(t[1], tuple) and t[1][:1] == ('elem',) and \
+                isinstance(t[1][1], tuple) and t[1][1][:1] == ('call',) and t[1][1][2] == ('ref', 'builtin', 'enumerate'):
+            if t[2] == 1 and t[1][1][3]:
+                t = ('elem', t[1][1][3][0], 0)
+                continue
+            return None
+        if t[0] == 'call' and t[2] in (('ref', 'builtin', 'list'), ('ref', 'builtin', 'tuple'), ('ref', 'builtin', 'reversed'),
+                                       ('ref', 'builtin', 'iter'), ('ref', 'builtin', 'sorted')) and len(t[3]) >= 1:
+            t = t[3][0]
+            continue
         if t[0] in ('elem',):
             t = t[1]
         elif t[0] in ('unpack', 'unpack*'):
